@@ -190,17 +190,25 @@ where
         for ((id, remote), tx) in self.from_session_tx.iter() {
             let session_id = *id;
             let remote = *remote;
+            let Some(topic) = self.session_topic_map.topic(session_id).cloned() else {
+                continue;
+            };
             let stream = BroadcastStream::new(tx.subscribe());
 
             #[allow(clippy::type_complexity)]
             let stream: Pin<
-                Box<dyn StreamDebug<Option<FromSync<TopicLogSyncEvent<E>>>>>,
+                Box<dyn StreamDebug<Option<(T, FromSync<TopicLogSyncEvent<E>>)>>>,
             > = Box::pin(stream.map(Box::new(
                 move |event: Result<TopicLogSyncEvent<E>, BroadcastStreamRecvError>| {
-                    event.ok().map(|event| FromSync {
-                        session_id,
-                        remote,
-                        event,
+                    event.ok().map(|event| {
+                        (
+                            topic.clone(),
+                            FromSync {
+                                session_id,
+                                remote,
+                                event,
+                            },
+                        )
                     })
                 },
             )));
